@@ -698,7 +698,8 @@ impl Ctx {
                 .ok()
                 .and_then(|s| s.parse().ok())
                 .unwrap_or(2000),
-            max_global_rejects: 1_000_000,
+            max_global_rejects: u32::MAX,
+            max_local_rejects: u32::MAX,
             ..Config::default()
         };
         let seed = mix_seed(self.seed, &[&self.id, sub], worker);
